@@ -206,7 +206,8 @@ def AliasClause : Prop :=
   (∀ cfg a sa, Scala.aliasFacts cfg a = .ok sa → Scala.formatType cfg a.genericTypes a.ty = .ok sa.ty) ∧
   (∀ U cfg a st st' ga, Go.aliasFacts U cfg a st = .ok (ga, st') → Go.formatType cfg a.ty st = .ok (ga.ty, st')) ∧
   (∀ cfg a st st' pa, Python.aliasFacts cfg a st = .ok (pa, st') →
-    Python.formatType cfg a.genericTypes a.ty st = .ok (pa.ty, st'))
+    ∃ st1, Python.formatType cfg a.genericTypes a.ty st = .ok (pa.ty, st1) ∧
+      st' = a.genericTypes.foldl Python.addTypeVar st1)
 
 /-- **C04 at full strength over the model** -/
 def C04_full : Prop :=
